@@ -1693,6 +1693,21 @@ def _print(I, args, kwargs):
 def _iter(I, args, kwargs):
     if len(args) == 1:
         return iter(iterate(I, args[0]))
+    if len(args) == 2 and not kwargs:
+        # iter(callable, sentinel): call until the result equals the sentinel (the comparison is the interpreter's, so symbolic results fork)
+        f, sentinel = args
+
+        def until_sentinel():
+            n = 0
+            while True:
+                v = I.call(f, [], {})
+                if I.truth(I.eq(v, sentinel)):
+                    return
+                n += 1
+                if n > 4096:
+                    raise BoundExceeded("iter(callable, sentinel) did not reach its sentinel within 4096 calls")
+                yield v
+        return until_sentinel()
     return NotImplemented
 
 
